@@ -59,8 +59,36 @@ class PySpec:
                 return v
         return v
 
+    def test(self, n, tag):
+        """The truth of an expression used as a CONDITION (if / while / assert / conditional expression / comprehension
+        condition).  The Language Reference defines `x or y` as a value and the statement then tests that value; CPython
+        compiles and / or / not / conditional expressions / comparison chains that stand in a condition into jumps, so
+        the truth of each operand is tested exactly once.  "Like Python" is taken to mean what CPython does (the native
+        differential is the arbiter)."""
+        it = self.it
+        if isinstance(n, ast.BoolOp):
+            is_and = isinstance(n.op, ast.And)
+            for i, e in enumerate(n.values):
+                if self.test(e, f"{tag}.b{i}") != is_and:
+                    return not is_and
+            return is_and
+        if isinstance(n, ast.UnaryOp) and isinstance(n.op, ast.Not):
+            return not self.test(n.operand, tag + ".not")
+        if isinstance(n, ast.IfExp):
+            return self.test(n.body if self.test(n.test, tag + ".c") else n.orelse, tag + ".v")
+        if isinstance(n, ast.Compare) and len(n.ops) > 1:
+            cur = self.ev(n.left)
+            for i, (op, r) in enumerate(zip(n.ops, n.comparators)):
+                nxt = self.ev(r)
+                res = self.cmp(op, cur, nxt)
+                if not it.branch_truth(res, f"{tag}.cmp{i}"):
+                    return False
+                cur = nxt
+            return True
+        return it.branch_truth(self.ev(n), tag)
+
     def ev_IfExp(self, n):
-        if self.it.branch_truth(self.ev(n.test), "spec.ifexp"):
+        if self.test(n.test, "spec.ifexp"):
             return self.ev(n.body)
         return self.ev(n.orelse)
 
@@ -223,7 +251,7 @@ class PySpec:
             self.assign(g.target, item)
             ok = True
             for c in g.ifs:
-                if not self.it.branch_truth(self.ev(c), "spec.compif"):
+                if not self.test(c, "spec.compif"):
                     ok = False
                     break
             if ok:
@@ -417,7 +445,7 @@ class PyStmtSpec(PySpec):
         raise SReturn(self.ev(n.value) if n.value is not None else None)
 
     def ex_If(self, n):
-        if self.it.branch_truth(self.ev(n.test), "spec.if"):
+        if self.test(n.test, "spec.if"):
             self.block(n.body)
         else:
             self.block(n.orelse)
@@ -426,7 +454,16 @@ class PyStmtSpec(PySpec):
         it = self.it
         k = 0
         while True:
-            t = it.truth(self.ev(n.test))
+            special = isinstance(n.test, (ast.BoolOp, ast.IfExp)) or (isinstance(n.test, ast.UnaryOp) and isinstance(n.test.op, ast.Not)) or \
+                (isinstance(n.test, ast.Compare) and len(n.test.ops) > 1)
+            if special:
+                t = self.test(n.test, f"spec.while{k}")
+                if t and k >= it.LOOP_BOUND:
+                    it.eng.assume(z3.BoolVal(False))   # shape bound on the number of iterations
+                    from pyvc.interp import PathEnd
+                    raise PathEnd()
+            else:
+                t = it.truth(self.ev(n.test))
             if isinstance(t, bool):
                 cont = t
             elif k >= it.LOOP_BOUND:
@@ -457,7 +494,7 @@ class PyStmtSpec(PySpec):
         self.block(n.orelse)
 
     def ex_Assert(self, n):
-        if not self.it.branch_truth(self.ev(n.test), "spec.assert"):
+        if not self.test(n.test, "spec.assert"):
             if n.msg is not None:
                 m = self.ev(n.msg)
                 raise Raised(ExcVal(EXC["AssertionError"], (m,)))
